@@ -19,10 +19,38 @@ type boxGen struct {
 	r       *vfRand
 	nextSvc int
 	big     bool // include astronomically large blocks (C11)
+	pinned  bool // C18: several pools pinned to one namespace + a selector-pinned pool
 	tight   bool // C07: very few addresses, one dominant sharing key, two ports: exhaustion and port conflicts everywhere
 }
 
 func (g *boxGen) genPools() []metallbv1beta1.IPAddressPool {
+	if g.pinned {
+		// several pools pinned to one namespace (by name) next to a pool pinned by a service selector
+		// whose name sorts first, plus sometimes an unpinned one
+		blocks := vfShuffled(g.r, vfBlocksSmall)
+		mk := func(name string, i int) metallbv1beta1.IPAddressPool {
+			p := metallbv1beta1.IPAddressPool{ObjectMeta: metav1.ObjectMeta{Name: name, Namespace: "metallb-system"}}
+			p.Spec.Addresses = []string{blocks[i]}
+			return p
+		}
+		var out []metallbv1beta1.IPAddressPool
+		n := g.r.Range(3, 5)
+		for i := 0; i < n; i++ {
+			p := mk(fmt.Sprintf("p%d", i+1), i)
+			p.Spec.AllocateTo = &metallbv1beta1.ServiceAllocation{Priority: g.r.Intn(4), Namespaces: []string{"ns1"}}
+			if g.r.Chance(1, 4) {
+				p.Spec.AllocateTo.Namespaces = []string{"ns1", "ns2"}
+			}
+			out = append(out, p)
+		}
+		a := mk("a0", n)
+		a.Spec.AllocateTo = &metallbv1beta1.ServiceAllocation{Priority: g.r.Intn(3), ServiceSelectors: []metav1.LabelSelector{{MatchLabels: map[string]string{"tier": "web"}}}}
+		out = append(out, a)
+		if g.r.Bool() {
+			out = append(out, mk("u1", n+1))
+		}
+		return out
+	}
 	if !g.tight {
 		return vfGenPools(g.r, g.big, []string{"p1", "p2", "p3", "p4"})
 	}
